@@ -611,3 +611,279 @@ def inv_c10(prog, trace):
                 for key in [k for k in running if k[0] == F]:
                     del running[key]
     return fails
+
+
+# --------------------------------------------------------------------------------------- C20
+def inv_c20(prog, trace):
+    """'is updated' / 'is changed' against an event-history model (writes, entry resets,
+    taken-transition resets), independent of ioflo's Mark fields. Requires programs whose data
+    acts are literal put/set/inc on value fields and at most one marker need per act."""
+    S = Static(prog)
+    fails = []
+    value = {}
+    last_write = {}
+    for p, v in prog.get("inits", []):
+        value[p] = v
+    marks = {}      # (share, key) -> {"reset": tick|None, "transit": tick|None, "snap": value, "has": bool}
+    acts = {}
+    for fr in prog["framers"]:
+        for f in fr["frames"]:
+            for a in f["acts"]:
+                acts[a["line"]] = (fr["name"], f["name"], a)
+
+    def marker_of(line):
+        F, X, a = acts[line]
+        for j, n in enumerate(a.get("needs") or []):
+            if n["kind"] in ("updated", "changed"):
+                target = n.get("frame")
+                tf = X if (not target or target == "me") else target
+                key = F + "<" + (n["by"] if n.get("by") else tf)
+                return j, n, (n["share"], key)
+        return None, None, None
+
+    for t, e in flat(trace):
+        if e[0] == "act" and e[5] in ("put", "set", "inc"):
+            F, X, a = acts[e[4]]
+            if e[5] == "inc":
+                value[a["dst"]] = value.get(a["dst"], 0) + a["val"]
+            else:
+                value[a["dst"]] = a["val"]
+            last_write[a["dst"]] = t
+        elif e[0] == "act" and e[5] == "mark":
+            j, n, mk = marker_of(e[4])
+            if mk is None:
+                continue
+            m = marks.setdefault(mk, {"reset": None, "transit": None, "snap": None, "has": False, "kinds": set()})
+            # one mark (share, key) may serve an updated and a changed need: each marker act resets its own kind
+            if n["kind"] == "updated":
+                m["reset"] = t
+            else:
+                m["snap"] = value.get(n["share"])
+                m["has"] = True
+        elif e[0] == "tract":
+            j, n, mk = marker_of(e[3])
+            if mk is None:
+                continue
+            m = marks.setdefault(mk, {"reset": None, "transit": None, "snap": None, "has": False, "kinds": set()})
+            if n["kind"] == "updated":
+                m["reset"] = t
+                m["transit"] = t
+            else:
+                m["snap"] = value.get(n["share"])
+                m["has"] = True
+        elif e[0] == "need":
+            F, X, line, idxn, res = e[1], e[2], e[3], e[4], e[5]
+            if line not in acts:
+                continue
+            j, n, mk = marker_of(line)
+            if n is None or j != idxn:
+                continue
+            m = marks.get(mk, {"reset": None, "transit": None, "snap": None, "has": False})
+            sh = n["share"]
+            if n["kind"] == "updated":
+                lw = last_write.get(sh)
+                if lw is None:
+                    exp = False
+                elif m["reset"] is None:
+                    exp = True
+                else:
+                    exp = lw > m["reset"] or (lw == m["reset"] and m["transit"] != m["reset"])
+            else:
+                exp = True if not m["has"] else (value.get(sh) != m["snap"])
+            if n.get("neg"):
+                exp = not exp
+            if bool(res) != bool(exp):
+                fails.append(("c20-%s" % n["kind"], "tick %d: `%s` (line %d) evaluated %r; history says %r (last write tick %r, last reset tick %r, "
+                              "last taken-transition reset tick %r, value %r, snapshot %r/%s)" % (
+                                  t, n, line, res, exp, last_write.get(sh), m["reset"], m["transit"], value.get(sh), m["snap"], m["has"])))
+    return fails
+
+
+# --------------------------------------------------------------------------------------- C04
+def inv_c04(prog, trace):
+    """Bids decide the control a taskable receives at its next run (last bid wins); slaves are
+    run only by fiats; each fiat reports whether the requested state was reached."""
+    S = Static(prog)
+    roles = S.roles()
+    fails = []
+    acts = {}
+    for fr in prog["framers"]:
+        for f in fr["frames"]:
+            for a in f["acts"]:
+                acts[a["line"]] = (fr["name"], f["name"], a)
+    taskables = [n for n, r in roles.items() if r in ("active", "inactive")]
+    desire = {n: ("start" if roles[n] == "active" else "stop") for n in taskables}
+    status = {n: "stopped" for n in roles}
+    pending_post = {}
+    E = flat(trace)
+    n = len(E)
+    want = {"ready": "readied", "start": "started", "run": "running", "stop": "stopped", "abort": "aborted"}
+    for i, (t, e) in enumerate(E):
+        if e[0] == "act" and e[5] == "bid":
+            F, X, a = acts[e[4]]
+            for tg in a["targets"]:
+                if tg == "all":
+                    names = taskables
+                elif tg == "me":
+                    names = [F]
+                else:
+                    names = [tg]
+                for nm in names:
+                    if nm in desire:
+                        desire[nm] = a["verb"]
+        elif e[0] == "send":
+            T, c, s = e[1], e[2], e[3]
+            if T not in roles:
+                continue
+            prev = E[i - 1][1] if i > 0 else None
+            by_fiat = bool(prev and prev[0] == "act" and prev[5] == "fiat" and acts[prev[4]][2]["target"] == T
+                           and acts[prev[4]][2]["verb"] == c)
+            if roles[T] == "slave":
+                if not by_fiat:
+                    fails.append(("c04-slave-run-without-fiat", "tick %d: slave %s received %s not from a fiat (previous event %r)" % (t, T, c, prev)))
+                else:
+                    res = prev[6]
+                    if s in want.values() and bool(res) != (s == want[c]):
+                        fails.append(("c04-fiat-result", "tick %d: fiat %s %s returned %r but the slave's status is %s" % (t, c, T, res, s)))
+            elif roles[T] in ("active", "inactive"):
+                final_sweep = (t == len(trace["ticks"])) and c == "abort" and desire.get(T) != "abort"
+                if not by_fiat and not final_sweep and s not in ("raised", "dead"):
+                    if c != desire[T]:
+                        fails.append(("c04-control-not-last-bid", "tick %d: %s received control %s but the last bid / own request before this run was %s" % (
+                            t, T, c, desire[T])))
+            if T in desire and s not in ("raised", "dead"):
+                p = status[T]
+                live = p in ("started", "running")
+                idle = p in ("stopped", "readied")
+                if c == "run":
+                    if idle:
+                        desire[T] = "start"
+                    elif not live:
+                        desire[T] = "abort"
+                elif c == "start":
+                    if idle and s == "started":
+                        desire[T] = "run"
+                    elif idle:
+                        pending_post[T] = "stop"
+                    elif live:
+                        desire[T] = "run"
+                    else:
+                        desire[T] = "abort"
+                elif c == "stop":
+                    if live:
+                        desire[T] = "stop"
+                    elif not idle:
+                        desire[T] = "abort"
+                elif c == "ready":
+                    if idle and s != "readied":
+                        pending_post[T] = "stop"
+                    elif not idle and not live:
+                        desire[T] = "abort"
+                else:
+                    pending_post[T] = "abort"
+            if s in want.values():
+                status[T] = s
+        elif e[0] == "state":
+            T = e[1]
+            if T in pending_post:
+                desire[T] = pending_post.pop(T)
+    return fails
+
+
+# --------------------------------------------------------------------------------------- C03
+def inv_c03(prog, trace, crash=None):
+    """However the run ends, every tasker still scheduled gets exactly one abort and nothing
+    afterwards, and every swept framer (and its auxiliaries) leaves no frame entered."""
+    S = Static(prog)
+    roles = S.roles()
+    fails = []
+    E = flat(trace)
+    taskables = [n for n, r in roles.items() if r in ("active", "inactive")]
+    # exception contract
+    if crash:
+        if crash.get("between") or crash.get("exc") == "KeyboardInterrupt":
+            if trace.get("exc"):
+                fails.append(("c03-interrupt-reraised", "keyboard interrupt at %r made Skedder.run raise %s" % (crash, trace.get("exc"))))
+        else:
+            if trace.get("exc") != "Crash":
+                fails.append(("c03-exception-not-reraised", "an exception raised by an action at %r was not re-raised by Skedder.run (got %r)" % (crash, trace.get("exc"))))
+    elif trace.get("exc"):
+        fails.append(("c03-unexpected-exception", "Skedder.run raised %s %s" % (trace.get("exc"), trace.get("exc_detail"))))
+    # who is still scheduled when the run ends: taskables not aborted earlier and whose generator is alive
+    gone = set()
+    last_idx = {}
+    sweep_start = None
+    final_tick = len(trace["ticks"])
+    # the sweep = the trailing sends with control abort that are not explained by a bid (desire)
+    # find sends per taskable in order
+    sends = [(i, t, e) for i, (t, e) in enumerate(E) if e[0] == "send" and e[1] in taskables]
+    # walk backwards over the trailing abort sends of the final tick: these are the sweep
+    aborted_before = set()
+    dead = set()
+    sweep = []
+    k = len(sends) - 1
+    seen = set()
+    while k >= 0:
+        i, t, e = sends[k]
+        if t == final_tick and e[2] == "abort" and e[1] not in seen and e[3] not in ("raised", "dead"):
+            sweep.append((i, e))
+            seen.add(e[1])
+            k -= 1
+        else:
+            break
+    sweep.reverse()
+    for i, t, e in sends[:k + 1]:
+        if e[3] == "aborted":
+            aborted_before.add(e[1])
+        if e[3] in ("raised", "dead"):
+            dead.add(e[1])
+    # a send that raised kills that tasker's generator (and every generator the exception passed through)
+    for t, e in E:
+        if e[0] == "send" and e[3] == "raised":
+            dead.add(e[1])
+    # ambiguity: a tasker whose last regular control in the final tick was a bid-abort looks like a sweep entry;
+    # then it is in aborted_before according to the status and must NOT be swept again
+    expected = [n for n in taskables if n not in dead]
+    swept = [e[1] for i, e in sweep]
+    # taskers aborted earlier (status aborted yielded before the sweep) are not scheduled any more
+    really_before = set()
+    for i, t, e in sends[:k + 1]:
+        if e[3] == "aborted":
+            really_before.add(e[1])
+    expected = [n for n in expected if n not in really_before]
+    if sorted(swept) != sorted(expected):
+        fails.append(("c03-abort-sweep-set", "run ended (crash=%r): taskers sent the final abort %r, expected exactly %r (aborted earlier %r, dead generators %r)" % (
+            crash, swept, sorted(expected), sorted(really_before), sorted(dead))))
+    for i, e in sweep:
+        if e[3] not in ("aborted",):
+            fails.append(("c03-abort-sweep-status", "final abort of %s yielded %s" % (e[1], e[3])))
+    # entered frames at the end
+    stack = {}
+    for t, e in E:
+        if e[0] == "f" and e[3] == "enter":
+            stack.setdefault(e[1], [])
+            if e[2] not in stack[e[1]]:
+                stack[e[1]].append(e[2])
+        elif e[0] == "f" and e[3] == "exit":
+            if e[2] in stack.get(e[1], []):
+                stack[e[1]].remove(e[2])
+    owner = {}
+    for fr in prog["framers"]:
+        for f in fr["frames"]:
+            for a in f["acts"]:
+                if a["kind"] == "aux":
+                    owner.setdefault(a["name"], fr["name"])
+
+    def root_owner(x):
+        seenx = set()
+        while x in owner and x not in seenx:
+            seenx.add(x)
+            x = owner[x]
+        return x
+    for F, st in stack.items():
+        if not st or F not in roles:
+            continue
+        root = root_owner(F)
+        if roles.get(root) in ("active", "inactive") and root not in dead:
+            fails.append(("c03-frames-left-entered", "run ended (crash=%r): framer %s (root owner %s, scheduled and swept) still has entered frames %r" % (crash, F, root, st)))
+    return fails
